@@ -1371,9 +1371,226 @@ func partE() {
 	shutdownRoute(t, key)
 }
 
+// ---------------------------------------------------------------- part F: one change, several options
+//
+// modRoute may set several filter options at once. That is ONE change: traffic must see the filter as it was
+// before or as it is after, never a mixture of old and new options; and a change that is rejected because one of
+// its options is invalid must leave the filter as it was.
+func partF() {
+	nRej := mon.N(24, 400)
+	for i := 0; i < nRej; i++ {
+		if !mon.Mine(i) {
+			continue
+		}
+		fRejected(i)
+	}
+	nTog := mon.N(2, 24)
+	for i := 0; i < nTog; i++ {
+		if !mon.Mine(i) {
+			continue
+		}
+		fToggle(i)
+	}
+}
+
+var fOptVals = map[string][]string{
+	"prefix": {"aaa.", "bbb.", "c18f", ""}, "notPrefix": {"zzz", "aaa.x", ""}, "sub": {".x.", "w1", ""}, "notSub": {"qq", ".y.", ""},
+	"regex": {"^[ab]+\\.", "w[0-9]+$", ""}, "notRegex": {"k9$", "^bbb\\.y", ""},
+}
+
+func fProbes() []string {
+	var out []string
+	for _, a := range []string{"aaa.", "bbb.", "c18f.", "zzz.", "aaa.x."} {
+		for _, b := range []string{"x.", "y.", "w1.", "qq."} {
+			for _, c := range []string{"w7", "k9", "w12", "end"} {
+				out = append(out, a+b+c)
+			}
+		}
+	}
+	return out
+}
+
+func fRejected(idx int) {
+	r := mon.NewRng(mon.Seed(), 1801, uint64(idx))
+	t := mon.NewTable("none", "none", false, "/nonexistent")
+	key := fmt.Sprintf("fr%d", u())
+	realRoute(t, key, 1, "sendAllMatch")
+	defer shutdownRoute(t, key)
+	rt := t.GetRoute(key)
+	names := []string{"prefix", "notPrefix", "sub", "notSub", "regex", "notRegex"}
+	cur := map[string]string{}
+	decisions := func() string {
+		var b strings.Builder
+		for _, p := range fProbes() {
+			if rt.Match([]byte(p)) {
+				b.WriteByte('1')
+			} else {
+				b.WriteByte('0')
+			}
+		}
+		return b.String()
+	}
+	for step := 0; step < 6; step++ {
+		opts := map[string]string{}
+		for _, k := range r.Perm(len(names))[:r.Range(2, 4)] {
+			opts[names[k]] = r.Pick(fOptVals[names[k]])
+		}
+		invalid := r.Chance(1, 2)
+		if invalid {
+			opts[r.Pick([]string{"regex", "notRegex"})] = r.Pick([]string{"(", "a[", "x{2,1}", "(?P<n"})
+		}
+		before := decisions()
+		res.LogCase("F rejected %d step %d: UpdateRoute %v (invalid=%v)", idx, step, opts, invalid)
+		err := t.UpdateRoute(key, opts)
+		after := decisions()
+		res.Count("multi_option_changes", 1)
+		w := map[string]interface{}{"options_set_in_one_change": fmt.Sprint(opts), "filter_before": fmt.Sprint(cur), "error": fmt.Sprint(err)}
+		if invalid {
+			if err == nil {
+				res.Violate("invalid-change-accepted", fmt.Sprintf("modRoute with options %v (one of them is not a valid regex) returned no error", opts), w)
+				return
+			}
+			if before != after {
+				res.Violate("rejected-change-applied", fmt.Sprintf("modRoute with options %v was rejected (%v) but the route's filter changed: decisions for %d probe names were %s, are %s", opts, err, len(fProbes()), before, after), w)
+				return
+			}
+			res.Count("rejected_changes_checked", 1)
+			continue
+		}
+		if err != nil {
+			res.Violate("valid-change-rejected", fmt.Sprintf("modRoute with valid options %v was rejected: %v", opts, err), w)
+			return
+		}
+		for k, v := range opts {
+			cur[k] = v
+		}
+		f, ferr := oracleFilter(cur)
+		if ferr != nil {
+			panic(ferr)
+		}
+		for _, p := range fProbes() {
+			if got, want := rt.Match([]byte(p)), f(p); got != want {
+				res.Violate("multi-option-change-wrong", fmt.Sprintf("after modRoute %v the filter should be %v: decision for %q is %v, expected %v", opts, cur, p, got, want), w)
+				return
+			}
+		}
+	}
+	res.Eval(1)
+	res.NonTrivial(fmt.Sprintf("F/rejected/%d", idx))
+}
+
+// oracleFilter: conjunction of the options that are set (Go regexp / strings, nothing from the relay)
+func oracleFilter(o map[string]string) (func(string) bool, error) {
+	var re, nre *regexp.Regexp
+	var err error
+	if o["regex"] != "" {
+		if re, err = regexp.Compile(o["regex"]); err != nil {
+			return nil, err
+		}
+	}
+	if o["notRegex"] != "" {
+		if nre, err = regexp.Compile(o["notRegex"]); err != nil {
+			return nil, err
+		}
+	}
+	return func(n string) bool {
+		if o["prefix"] != "" && !strings.HasPrefix(n, o["prefix"]) {
+			return false
+		}
+		if o["notPrefix"] != "" && strings.HasPrefix(n, o["notPrefix"]) {
+			return false
+		}
+		if o["sub"] != "" && !strings.Contains(n, o["sub"]) {
+			return false
+		}
+		if o["notSub"] != "" && strings.Contains(n, o["notSub"]) {
+			return false
+		}
+		if re != nil && !re.MatchString(n) {
+			return false
+		}
+		if nre != nil && nre.MatchString(n) {
+			return false
+		}
+		return true
+	}, nil
+}
+
+func fToggle(idx int) {
+	r := mon.NewRng(mon.Seed(), 1802, uint64(idx))
+	t := mon.NewTable("none", "none", false, "/nonexistent")
+	key := fmt.Sprintf("ft%d", u())
+	realRoute(t, key, 1, "sendAllMatch")
+	defer shutdownRoute(t, key)
+	// large alternations: compiling one takes milliseconds, which is how long a filter published option by option
+	// would stay half-applied
+	alt := func(suffix string) string {
+		var w []string
+		for i := 0; i < 3000; i++ {
+			w = append(w, fmt.Sprintf("w%d%s", i, suffix))
+		}
+		return `\.(` + strings.Join(w, "|") + `)\.`
+	}
+	f1 := map[string]string{"prefix": "aaa.", "regex": alt("x")}
+	f2 := map[string]string{"prefix": "bbb.", "regex": alt("y")}
+	if err := t.UpdateRoute(key, f1); err != nil {
+		panic(err)
+	}
+	// these match the new prefix with the old regex or the other way round: never a complete old or new filter
+	hybrids := []string{"bbb.w7x.k 1 1", "aaa.w7y.k 1 1", "bbb.w2999x.k 1 1", "aaa.w0y.k 1 1"}
+	toggles := r.Range(20, 40)
+	res.LogCase("F toggle %d: %d two-option changes under traffic", idx, toggles)
+	d := mon.NewDeltas(mon.KeyUnroutable)
+	var dispatched int64
+	stop := make(chan struct{})
+	var wg sync.WaitGroup
+	for g := 0; g < 3; g++ {
+		wg.Add(1)
+		go func(g int) {
+			defer wg.Done()
+			for i := 0; ; i++ {
+				select {
+				case <-stop:
+					return
+				default:
+				}
+				t.Dispatch([]byte(hybrids[(i+g)%len(hybrids)]))
+				atomic.AddInt64(&dispatched, 1)
+			}
+		}(g)
+	}
+	for k := 0; k < toggles; k++ {
+		f := f2
+		if k%2 == 1 {
+			f = f1
+		}
+		if err := t.UpdateRoute(key, f); err != nil {
+			panic(err)
+		}
+	}
+	close(stop)
+	wg.Wait()
+	n := atomic.LoadInt64(&dispatched)
+	for step := 0; step < 2000 && d.Get(mon.KeyUnroutable) < n; step++ {
+		time.Sleep(time.Millisecond)
+	}
+	un := d.Get(mon.KeyUnroutable)
+	res.Count("two_option_changes_under_traffic", toggles)
+	res.Count("hybrid_lines_dispatched", int(n))
+	res.Eval(1)
+	if un != n {
+		res.Violate("half-applied-change", fmt.Sprintf("a route was switched %d times between {prefix=aaa. regex=..x..} and {prefix=bbb. regex=..y..} (one modRoute each) while %d lines were dispatched that match neither filter (new prefix with old regex or old prefix with new regex): %d of them were routed (unroutable moved by %d)", toggles, n, n-un, un),
+			map[string]interface{}{"changes": toggles, "lines": n, "unroutable": un, "example_lines": hybrids})
+		return
+	}
+	if n > 100 {
+		res.NonTrivial(fmt.Sprintf("F/toggle/%d", idx))
+	}
+}
+
 func main() {
 	res = mon.NewResult("C18")
-	res.Rule = "A: every (list length 1..6, delete index) for routes/blacklist/rewriters/aggregators/destinations(3 route types) + add/delete histories, snapshot compared element-wise after the operation; B: the same grid with a dispatcher held at the after-load hook while the delete happens (capture routes, non-idempotent rewriters, counting aggregators, real destinations, real route deleted); C: 8 dispatchers x free-running admin operations; E: random sequential histories vs model list. non-trivial = a forced interleaving / concurrent history that completed with all its monitors evaluated; distinct = (part, kind, length, index) or history index"
+	res.Rule = "A: every (list length 1..6, delete index) for routes/blacklist/rewriters/aggregators/destinations(3 route types) + add/delete histories, snapshot compared element-wise after the operation; B: the same grid with a dispatcher held at the after-load hook while the delete happens (capture routes, non-idempotent rewriters, counting aggregators, real destinations, real route deleted); C: 8 dispatchers x free-running admin operations; E: random sequential histories vs model list; F: modRoute changes that set several filter options at once (rejected ones must change nothing; applied ones are never visible half-applied to traffic). non-trivial = a forced interleaving / concurrent history that completed with all its monitors evaluated; distinct = (part, kind, length, index) or history index"
 	res.Assume("capture routes stand for routes at table level; destinations point at refusing ports so each hand-off shows once in conn_down_no_spool")
 	res.Assume("a dispatcher that does not return within 4s and is parked at the same repo frame in two samples is wedged (normal latency is microseconds)")
 	sh, _ := mon.Shard()
@@ -1386,6 +1603,7 @@ func main() {
 	}
 	partC()
 	partE()
+	partF()
 	if sh == 0 {
 		fi, _ := res.Extra["interleavings_forced"].(int)
 		res.Floor("interleavings_forced", fi, 100)
